@@ -24,6 +24,15 @@ func (V *Verifier) candidates(sig *types.Signature) []*fnCtor {
 			}
 		}
 	}
+	// rule-table callbacks: method expressions (*parser).callonX
+	if sigIsParserCallback(sig) {
+		for _, k := range sortedFuncKeys(V.P.Funcs) {
+			f := V.P.Funcs[k]
+			if strings.HasPrefix(k, "grammar.parser.callon") && types.Identical(f.Signature.Results(), sig.Results()) {
+				out = append(out, V.U.fnCtorOf(f))
+			}
+		}
+	}
 	return out
 }
 
@@ -76,8 +85,21 @@ func (e *fnEnc) call(in ssa.Instruction, cc *ssa.CallCommon) []Term {
 			callee := cc.StaticCallee()
 			inRepo := callee != nil && callee.Pkg != nil && (callee.Pkg == e.V.P.Bexpr || callee.Pkg == e.V.P.Grammar)
 			if inRepo {
-				e.havocAllHeaps()
-				e.imprecise = append(e.imprecise, "call of uncontracted repo function "+key+" (results and heap havocked)")
+				// no contract: results are unknown; the heap keys it may write
+				// are inferred from its code (and its callees') by type safety
+				ws := e.V.inferredWrites(callee)
+				if ws["*"] {
+					e.havocAllHeaps()
+				} else {
+					for _, k := range sortedBoolKeys(ws) {
+						if h := U.heapByKey(k); h != nil {
+							e.curHeap[k] = e.heapVersion(h)
+						} else if h := U.heaps[k]; h != nil {
+							e.curHeap[k] = e.heapVersion(h)
+						}
+					}
+				}
+				e.note("call of uncontracted repo function " + key + ": result havocked, written heaps inferred from its code")
 			} else {
 				e.imprecise = append(e.imprecise, "call of external function without contract "+key+" (results havocked, heap assumed untouched)")
 			}
@@ -114,7 +136,14 @@ func (e *fnEnc) call(in ssa.Instruction, cc *ssa.CallCommon) []Term {
 	union := map[string]bool{}
 	for _, c := range cands {
 		cn := e.V.CS.ByKey[c.Key]
-		if cn == nil || !cn.HasAssigns {
+		if cn == nil {
+			// no contract: the heaps it may write are inferred from its code
+			for k := range e.V.inferredWrites(c.Fn) {
+				union[k] = true
+			}
+			continue
+		}
+		if !cn.HasAssigns {
 			union["*"] = true
 			continue
 		}
@@ -164,8 +193,7 @@ func (e *fnEnc) call(in ssa.Instruction, cc *ssa.CallCommon) []Term {
 		cn := e.V.CS.ByKey[c.Key]
 		guard := fmt.Sprintf("((_ is %s) %s)", c.Sym, f.S)
 		if cn == nil {
-			e.imprecise = append(e.imprecise, "indirect call candidate without contract: "+c.Key)
-			e.V.missing[c.Key]++
+			e.note("indirect call candidate without contract (result havocked, written heaps inferred): " + c.Key)
 			continue
 		}
 		// captures
@@ -309,8 +337,10 @@ func (e *fnEnc) applyContractAt(con *Contract, args []Term, res []Term, pos toke
 		if guard != "true" {
 			g = fmt.Sprintf("(and %s %s)", e.curReach, guard)
 		}
-		o := e.oblig("pre", name+":"+clauseName(r), r.Props, g, t.S, pos)
-		o.Clause = r
+		if !(con.External && e.con != nil && e.con.MayPanic) {
+			o := e.oblig("pre", name+":"+clauseName(r), r.Props, g, t.S, pos)
+			o.Clause = r
+		}
 		// continue only if it held
 		nr := e.fresh("reach", "Bool")
 		if guard == "true" {
